@@ -12,7 +12,7 @@ PROP = {
             "dense at x = a+1 +- {1e-3,1e-9} and a = 100 +- 1e-6; inverses for p in (1e-12, 1-1e-12)",
     "floors": {"quick": {"cases": 250000, "distinct_nontrivial": 100000,
                          "ticks": {"GammaPser.term": 1000000, "GammaQcf.term": 1000000, "GammaQint": 100000, "Inv_GammaP.halley": 30000},
-                         "clauses": {"gammaln-vs-lgammal": 35000, "gamma-recurrence": 20000, "factorial-recurrence-bit-exact": 4000, "factorial-above-170-exits": 24,
+                         "clauses": {"gammaln-vs-lgammal": 35000, "gamma-recurrence": 20000, "factorial-recurrence-to-4-ulp": 4000, "factorial-above-170-exits": 24,
                                      "binomial-vs-pascal-triangle": 80000, "binomial-pascal-rule": 80000, "pq-range-0-1": 300000, "pq-sum-to-one": 150000,
                                      "p-accuracy-1e-12-a<=100": 90000, "p-accuracy-1e-3-a>100": 60000, "pq-monotone-in-x": 150000, "upper-plus-lower-equals-gamma": 100000,
                                      "inv-gammap-residual-1e-7-a<=100": 12000, "inv-gammap-residual-1e-3-a>100": 6000, "inv-gammaq-residual-1e-7-a<=100": 5000}},
